@@ -28,7 +28,7 @@ package hooks
 //@ func (*hooks).OnEscrowAccountClosed
 //@   requires hwired(h) && depWF(KVhas[hdsk(h)], KVval[hdsk(h)])
 //@   modifies ghost KVhas, ghost KVval, ghost G, ghost Bank, ghost Mod, ghost It_all, ghost EvN, ghost EvLog, ghost PayCloseReq
-//@   uses keepsClosedTrans, keepsClosedRefl, depKeepsTrans, depKeepsRefl, depKeepsHas, depKeepsWF, depKeepsClosedDep, depKeepsDead, depKeepsCloseGroup, depKeepsCloseDeployment, depWFGet, depWFEnumGroup, dkindsDisjoint
+//@   uses keepsClosedTrans, keepsClosedRefl, keepsClosedHas, keepsClosedWF, keepsClosedOrder, keepsClosedBid, keepsClosedLease, keepsClosedCloseOrder, keepsClosedCloseBid, keepsClosedCloseLease, depKeepsTrans, depKeepsRefl, depKeepsHas, depKeepsWF, depKeepsClosedDep, depKeepsDead, depKeepsCloseGroup, depKeepsCloseDeployment, depWFGet, depWFEnumGroup, dkindsDisjoint
 //@   ensures [deployment] forall d: dtypes.DeploymentID :: obj.ID.Scope == "deployment" && obj.ID.XID == depXID(d) && canonicalAddr(d.Owner)
 //@        && old(KVhas)[hdsk(h)][deploymentKeyOf(d)] && depOf(old(KVval)[hdsk(h)], d).State == dtypes.DeploymentActive ==>
 //@        depOf(KVval[hdsk(h)], d).State == dtypes.DeploymentClosed
@@ -49,4 +49,21 @@ package hooks
 //@   oncall hooks.(MarketKeeper).OnGroupClosed 1 assert depKeeps(atloop(KVhas)[hdsk(h)], atloop(KVval)[hdsk(h)], KVhas[hdsk(h)], KVval[hdsk(h)])
 //@   oncall hooks.(MarketKeeper).OnGroupClosed 1 assert forall j: int :: 0 <= j && j < iter ==> groupDead(grpOf(KVval[hdsk(h)], ranged[j].GroupID).State)
 
-//@ property C04 := (*hooks).OnEscrowAccountClosed#*
+// When a lease's payment stream closes (or runs dry) while its bid is still matched, the order, the bid and the
+// lease are closed together (the lease marked out of funds on overdraft); nothing else is touched.
+//@ func (*hooks).OnEscrowPaymentClosed
+//@   requires hwired(h) && mktWF(KVhas[hmsk(h)], KVval[hmsk(h)])
+//@   modifies ghost KVhas, ghost KVval, ghost G, ghost Bank, ghost Mod, ghost It_all, ghost EvN, ghost EvLog
+//@   uses keepsClosedTrans, keepsClosedRefl, keepsClosedHas, keepsClosedWF, keepsClosedOrder, keepsClosedBid, keepsClosedLease, keepsClosedCloseOrder, keepsClosedCloseBid, keepsClosedCloseLease, mktWFGetOrder, mktWFGetBid, mktWFGetLease, orderBidDisjoint, orderLeaseDisjoint, bidLeaseDisjoint
+//@   ensures [closed] forall l: mtypes.LeaseID :: obj.AccountID.Scope == "deployment" && obj.AccountID.XID == depXID(leaseDep(l)) && canonicalAddr(l.Owner)
+//@        && obj.PaymentID == leasePID(l) && canonicalAddr(l.Provider)
+//@        && old(KVhas)[hmsk(h)][bidKeyOf(asBid(l))] && bidOf(old(KVval)[hmsk(h)], asBid(l)).State == mtypes.BidActive
+//@        && old(KVhas)[hmsk(h)][orderKeyOf(asOrder(l))] && old(KVhas)[hmsk(h)][leaseKeyOf(l)] ==>
+//@        ordOf(KVval[hmsk(h)], asOrder(l)).State == mtypes.OrderClosed && bidOf(KVval[hmsk(h)], asBid(l)).State == mtypes.BidClosed
+//@        && (leaseOf(old(KVval)[hmsk(h)], l).State == mtypes.LeaseActive ==>
+//@              leaseOf(KVval[hmsk(h)], l).State == ite(obj.State == etypes.PaymentOverdrawn, mtypes.LeaseInsufficientFunds, mtypes.LeaseClosed))
+//@   ensures [keeps] keepsClosed(old(KVhas)[hmsk(h)], old(KVval)[hmsk(h)], KVhas[hmsk(h)], KVval[hmsk(h)])
+//@   ensures [others] forall sk: iface {KVval[sk]} :: sk != mktEscrowSKey() && sk != hmsk(h) ==> KVhas[sk] == old(KVhas)[sk] && KVval[sk] == old(KVval)[sk]
+//@   ensures [events] EvN >= old(EvN) && (forall j: int :: 0 <= j && j < old(EvN) ==> EvLog[j] == old(EvLog)[j])
+
+//@ property C04 := (*hooks).OnEscrowAccountClosed#*, (*hooks).OnEscrowPaymentClosed#*
